@@ -25,8 +25,13 @@ for d in sorted((x for x in os.listdir('/verif/seeded') if re.match(r'^C\d+-\d+$
     for p in checks:
         caught.append('%s.%s'%(p,short(exp.get(p,''))))
     summary=m.get('summary','').replace('|','/')
-    init=m.get('initially', 'caught' if not m.get('initially_missed_by') else 'missed')
-    if m.get('initially_missed_by') : init='missed'
+    imb=m.get('initially_missed_by') or []
+    if 'initially' in m and not imb:
+        init=m['initially']
+    elif imb:
+        init='missed' if any(str(x).startswith(prop) for x in imb) else 'caught (a related check missed it)'
+    else:
+        init='caught'
     now='yes' if prop in checks else ('**no**' if checks==[] else 'other check only')
     rows.append('| %s | %s | %s | %s | %s |'%(d, summary[:150], ', '.join(caught) or '—', init, now))
 print('| seed | change | reported by (check.rule of the first violated obligation) | when it arrived | own check reports it now |')
